@@ -6,6 +6,12 @@
 //!   h_locks prog   <seed> <reps>   <m|rw> <first-prog> <nprog> <spin> <spurious-%> <point-yield-%>
 //!   h_locks stress <seed> <millis> <m|rw> <nthreads> <nlocks> <spin> <spurious-%>
 //!
+//! Besides lock/try/read/write the programs exercise the rest of the public surface: `{:?}` of a Mutex
+//! (from holders and non-holders, into a String, into a fixed-size sink that runs full at a chosen
+//! byte, with a payload whose Debug returns Err or panics), `{:?}` / `{}` of the guards, and - single
+//! threaded, with exact post-conditions - Default / get_mut / into_inner and the formatting battery
+//! over every byte position (`surface_battery`).
+//!
 //! Oracles (all monitor state is touched with Relaxed read-modify-write operations only, so the
 //! monitor adds no happens-before edge that could hide a missing Acquire/Release, and an RMW always
 //! observes the latest value in the modification order, so stamps are consistent with real order):
@@ -18,8 +24,13 @@
 //!  * deadlock: Miri's scheduler; natively the watchdog thread (all live workers between WAIT_ENTER
 //!    and WAIT_EXIT, no progress event for >= 200 ms, every one of them shown by
 //!    /proc/self/task/<tid>/syscall inside futex(2), nobody inside a critical section)
+//!  * livelock (logical, no clock): one blocking call has passed LIVELOCK_EVENTS hook points / futex-wait
+//!    entries without really sleeping, while no operation of any thread completed, the books show the
+//!    lock free and every other thread is finished, parked or inside a blocking call as well
+//!  * a wall-clock stall watchdog (no operation completed for HL_STALL_MS) only ever says "inconclusive"
 use std::cell::Cell;
 use std::collections::HashSet;
+use std::fmt;
 use std::fmt::Write as _;
 use std::sync::atomic::{AtomicU32, AtomicU64, AtomicUsize, Ordering::Relaxed};
 use std::sync::Arc;
@@ -38,7 +49,6 @@ const IS_MIRI: bool = cfg!(miri);
 // protected payload: plain data, only ever touched through a guard
 // ------------------------------------------------------------------------------------------------
 const PW: usize = 6;
-#[derive(Debug)]
 struct Payload {
     stamp: u64,
     count: u64,
@@ -51,6 +61,100 @@ impl Payload {
             count: 0,
             arr: [0; PW],
         }
+    }
+}
+
+impl Default for Payload {
+    fn default() -> Self {
+        Payload::new()
+    }
+}
+impl Payload {
+    fn render(&self, f: &mut fmt::Formatter<'_>, name: &str) -> fmt::Result {
+        // plain reads of the protected data: formatting without the lock is a data race
+        match TL.with(|t| t.fail_mode.get()) {
+            1 => return Err(fmt::Error),
+            2 => panic!("payload formatting panics on request"),
+            _ => {}
+        }
+        f.write_str(name)?;
+        f.write_str(" { stamp: ")?;
+        fmt::Display::fmt(&self.stamp, f)?;
+        f.write_str(", count: ")?;
+        fmt::Display::fmt(&self.count, f)?;
+        f.write_str(", arr0: ")?;
+        fmt::Display::fmt(&self.arr[0], f)?;
+        f.write_str(", arr5: ")?;
+        fmt::Display::fmt(&self.arr[PW - 1], f)?;
+        f.write_str(" }")
+    }
+}
+impl fmt::Debug for Payload {
+    fn fmt(&self, f: &mut fmt::Formatter<'_>) -> fmt::Result {
+        self.render(f, "Payload")
+    }
+}
+impl fmt::Display for Payload {
+    fn fmt(&self, f: &mut fmt::Formatter<'_>) -> fmt::Result {
+        self.render(f, "payload")
+    }
+}
+
+/// where formatted output goes
+#[derive(Clone, Copy, Debug, PartialEq, Eq)]
+enum Sink {
+    Str,
+    Fixed(usize),
+    FailErr,
+    FailPanic,
+}
+struct FixedSink {
+    buf: [u8; 512],
+    len: usize,
+    cap: usize,
+}
+impl fmt::Write for FixedSink {
+    fn write_str(&mut self, s: &str) -> fmt::Result {
+        let room = self.cap - self.len;
+        let n = room.min(s.len());
+        self.buf[self.len..self.len + n].copy_from_slice(&s.as_bytes()[..n]);
+        self.len += n;
+        if n < s.len() {
+            Err(fmt::Error)
+        } else {
+            Ok(())
+        }
+    }
+}
+/// run one formatting call against the chosen sink; (returned Ok, panicked, bytes written)
+fn run_fmt(sink: Sink, f: &dyn Fn(&mut dyn fmt::Write) -> fmt::Result) -> (bool, bool, usize) {
+    TL.with(|t| {
+        t.fail_mode.set(match sink {
+            Sink::FailErr => 1,
+            Sink::FailPanic => 2,
+            _ => 0,
+        });
+        t.expect_panic.set(sink == Sink::FailPanic);
+    });
+    let r = std::panic::catch_unwind(std::panic::AssertUnwindSafe(|| match sink {
+        Sink::Fixed(k) => {
+            let mut w = FixedSink { buf: [0; 512], len: 0, cap: k.min(512) };
+            let r = f(&mut w);
+            (r.is_ok(), w.len)
+        }
+        _ => {
+            let mut w = String::new();
+            let r = f(&mut w);
+            (r.is_ok(), w.len())
+        }
+    }));
+    TL.with(|t| {
+        t.fail_mode.set(0);
+        t.expect_panic.set(false);
+    });
+    match r {
+        Ok((ok, n)) => (ok, false, n),
+        Err(_) => (false, true, 0),
     }
 }
 
@@ -128,6 +232,13 @@ static BR_ACT: [AtomicU64; MAXL] = [Z64; MAXL];
 static BR_OPN: [AtomicU64; MAXL] = [Z64; MAXL];
 
 static PROGRESS: AtomicU64 = AtomicU64::new(0);
+/// completed operations of any thread (acquire returned, guard released, formatting done, thread ended);
+/// hook events do not count: "nobody got anywhere" = this counter unchanged
+static OPS_DONE: AtomicU64 = AtomicU64::new(0);
+/// hook events one blocking call may pass without sleeping while nothing else moves
+/// test knob (HL_NO_LIVELOCK=1): lets the wall-clock bounds be exercised on a spinning lock
+static LIVELOCK_OFF: AtomicU32 = AtomicU32::new(0);
+const LIVELOCK_EVENTS: u64 = if IS_MIRI { 3_000 } else { 300_000 };
 static EXEC_ID: AtomicU64 = AtomicU64::new(0);
 static ARRIVED: AtomicU32 = AtomicU32::new(0);
 static STOP: AtomicU32 = AtomicU32::new(0);
@@ -144,6 +255,7 @@ struct Slot {
     in_wait: AtomicU32,
     tid: AtomicU32,
     op: AtomicU32,
+    in_block: AtomicU32,
     wait_addr: AtomicUsize,
 }
 #[allow(clippy::declare_interior_mutable_const)]
@@ -152,6 +264,7 @@ const SLOT0: Slot = Slot {
     in_wait: AtomicU32::new(0),
     tid: AtomicU32::new(0),
     op: AtomicU32::new(0),
+    in_block: AtomicU32::new(0),
     wait_addr: AtomicUsize::new(0),
 };
 static SLOTS: [Slot; MAXT] = [SLOT0; MAXT];
@@ -233,6 +346,11 @@ struct Tl {
     shared_reads: Cell<u64>,
     saw213: Cell<bool>,
     pts: [Cell<u64>; NPT],
+    fail_mode: Cell<u8>,
+    expect_panic: Cell<bool>,
+    blk: Cell<u32>,     // op code | lock << 8 of the blocking call in progress, 0 = none
+    blk_ev: Cell<u64>,  // hook events of that call since the last sign of life anywhere
+    blk_ops: Cell<u64>, // OPS_DONE when blk_ev was last reset
 }
 #[allow(clippy::declare_interior_mutable_const)]
 const C0: Cell<u64> = Cell::new(0);
@@ -241,6 +359,7 @@ thread_local! {
         me: Cell::new(usize::MAX), rng: Cell::new(0x1234_5678_9abc_def1), waits: C0, slept: C0, eagain: C0,
         other_ret: C0, spurious: C0, wake_calls: C0, woken: C0, ho_writer: C0, ho_nowriter: C0,
         ho_fallback: C0, ho_readers: C0, shared_reads: C0, saw213: Cell::new(false), pts: [C0; NPT],
+        fail_mode: Cell::new(0), expect_panic: Cell::new(false), blk: Cell::new(0), blk_ev: C0, blk_ops: C0,
     } };
 }
 fn bump(c: &Cell<u64>) {
@@ -270,6 +389,8 @@ fn tl_reset(me: usize, seed: u64) {
         for p in &t.pts {
             p.set(0);
         }
+        t.blk.set(0);
+        t.blk_ev.set(0);
     });
 }
 fn tl_take() -> TStats {
@@ -308,12 +429,73 @@ fn tl_rand(t: &Tl) -> u64 {
     x.wrapping_mul(0x2545_F491_4F6C_DD1D) >> 11
 }
 
+/// One more hook event inside a blocking lock()/read()/write() call of this thread. Purely logical
+/// certificate of a livelock: LIVELOCK_EVENTS events without this thread really sleeping and without
+/// any operation of any thread completing, the books show nobody inside the lock, and every other
+/// thread is finished, parked in futex wait or itself inside a blocking call (such a thread holds
+/// nothing: blocking calls are never nested). A correct lock admits the caller within a handful of
+/// events in that situation.
+fn blk_event(t: &Tl) {
+    let b = t.blk.get();
+    if b == 0 {
+        return;
+    }
+    let n = t.blk_ev.get() + 1;
+    t.blk_ev.set(n);
+    if n & 0xff != 0 {
+        return;
+    }
+    let od = rd64(&OPS_DONE);
+    if od != t.blk_ops.get() {
+        t.blk_ops.set(od);
+        t.blk_ev.set(0);
+        return;
+    }
+    if n < LIVELOCK_EVENTS || LIVELOCK_OFF.load(Relaxed) != 0 {
+        return;
+    }
+    let me = t.me.get();
+    let l = (b >> 8) as usize;
+    if l >= MAXL || rd32(&OCC[l]) != 0 {
+        return;
+    }
+    let mut others = String::from("[");
+    for (i, s) in SLOTS.iter().enumerate() {
+        if i == me || rd32(&s.live) == 0 {
+            continue;
+        }
+        let parked = rd32(&s.in_wait) != 0;
+        let blocked = rd32(&s.in_block) != 0;
+        if !parked && !blocked {
+            return; // somebody is on its way: look again 256 events later
+        }
+        let _ = write!(others, "{{\"thread\":{i},\"state\":\"{}\"}},", if parked { "parked in futex wait" } else { "inside a blocking call" });
+    }
+    if others.ends_with(',') {
+        others.pop();
+    }
+    others.push(']');
+    let op = OP_NAMES[((b & 0xff) as usize).min(OP_NAMES.len() - 1)];
+    let ctx = WD_CTX.lock().map(|c| c.clone()).unwrap_or_default();
+    vh::viol(
+        &format!("{}/{op}/spins-forever-on-free-{}", kind_id(), if KIND_RW.load(Relaxed) != 0 { "rwlock" } else { "mutex" }),
+        &format!(
+            "{{\"what\":\"one {op}() call passed {n} hook points / futex-wait entries without sleeping while no operation of any thread completed, nobody is inside lock {l} and no other thread can release anything\",\"thread\":{me},\"lock\":{l},\"events\":{n},\"other_live_threads\":{others},\"run\":{}}}",
+            if ctx.is_empty() { "null".to_string() } else { ctx }
+        ),
+    );
+    use std::io::Write;
+    let _ = std::io::stdout().flush();
+    std::process::exit(3);
+}
+
 fn futex_cb(ev: u32, addr: usize, val: u32, res: isize) -> u32 {
     TL.with(|t| {
         let me = t.me.get();
         match ev {
             rv::EV_WAIT_ENTER => {
                 bump(&t.waits);
+                blk_event(t);
                 let pct = SPUR_PCT.load(Relaxed);
                 if pct != 0 && tl_rand(t) % 100 < u64::from(pct) {
                     bump(&t.spurious);
@@ -337,7 +519,11 @@ fn futex_cb(ev: u32, addr: usize, val: u32, res: isize) -> u32 {
                 }
                 PROGRESS.fetch_add(1, Relaxed);
                 match res {
-                    0 => bump(&t.slept),
+                    0 => {
+                        // really slept: somebody held the word at the expected value
+                        t.blk_ev.set(0);
+                        bump(&t.slept);
+                    }
                     -11 => bump(&t.eagain),
                     _ => bump(&t.other_ret),
                 }
@@ -392,6 +578,10 @@ fn point_cb(id: u32) {
             t.saw213.set(false);
         } else if id == 213 {
             t.saw213.set(true);
+        }
+        blk_event(t);
+        if t.blk_ev.get() > 2000 {
+            return; // a call that is going round and round is not delayed any further
         }
         if IS_MIRI {
             let pct = PT_YIELD_PCT.load(Relaxed);
@@ -471,6 +661,8 @@ enum Acq {
     Write,
     TryRead,
     TryWrite,
+    /// `{:?}` of the Mutex itself (takes the lock with try_lock for the duration of the formatting)
+    Fmt,
 }
 impl Acq {
     fn is_try(self) -> bool {
@@ -487,10 +679,14 @@ impl Acq {
             Acq::Write => "W",
             Acq::TryRead => "TR",
             Acq::TryWrite => "TW",
+            Acq::Fmt => "F",
         }
     }
     fn code(self) -> u32 {
-        self as u32 + 1
+        match self {
+            Acq::Fmt => 10,
+            a => a as u32 + 1,
+        }
     }
 }
 
@@ -500,14 +696,23 @@ struct Op {
     l: u8,
     h: u8,
     inner: Option<(Acq, u8)>,
+    /// format the guard inside the critical section: 0 = no, else sink kind 1..=4 (+8: Display)
+    gf: u8,
 }
 impl Op {
     fn mn(&self) -> String {
         let mut s = String::with_capacity(16);
         s.push_str(self.a.mn());
         s.push((b'0' + self.l) as char);
-        s.push('h');
+        s.push(if self.a == Acq::Fmt { 's' } else { 'h' });
         s.push((b'0' + self.h) as char);
+        if self.gf != 0 {
+            s.push('g');
+            s.push((b'0' + (self.gf & 7)) as char);
+            if self.gf & 8 != 0 {
+                s.push('d');
+            }
+        }
         if let Some((ia, il)) = self.inner {
             s.push('[');
             s.push_str(ia.mn());
@@ -527,22 +732,29 @@ fn gen_op(r: &mut Rng, rw: bool, nlocks: usize) -> Op {
         _ => 3,
     };
     let il = if r.chance(1, 2) { l } else { r.below(nlocks as u64) as u8 };
+    // one section in six formats its guard (sink kind 1..=4; rwlock guards also have Display)
+    let gf = if r.below(6) == 0 { 1 + r.below(4) as u8 + if rw && r.chance(1, 2) { 8 } else { 0 } } else { 0 };
+    let op = |a, inner| Op { a, l, h, inner, gf };
     if rw {
         match r.below(20) {
-            0..=4 => Op { a: Acq::Read, l, h, inner: None },
-            5..=9 => Op { a: Acq::Write, l, h, inner: None },
-            10..=12 => Op { a: Acq::TryRead, l, h, inner: None },
-            13..=15 => Op { a: Acq::TryWrite, l, h, inner: None },
-            16 => Op { a: Acq::Read, l, h, inner: Some((Acq::TryWrite, il)) },
-            17 => Op { a: Acq::Read, l, h, inner: Some((Acq::TryRead, il)) },
-            18 => Op { a: Acq::Write, l, h, inner: Some((Acq::TryRead, il)) },
-            _ => Op { a: Acq::Write, l, h, inner: Some((Acq::TryWrite, il)) },
+            0..=4 => op(Acq::Read, None),
+            5..=9 => op(Acq::Write, None),
+            10..=12 => op(Acq::TryRead, None),
+            13..=15 => op(Acq::TryWrite, None),
+            16 => op(Acq::Read, Some((Acq::TryWrite, il))),
+            17 => op(Acq::Read, Some((Acq::TryRead, il))),
+            18 => op(Acq::Write, Some((Acq::TryRead, il))),
+            _ => op(Acq::Write, Some((Acq::TryWrite, il))),
         }
     } else {
-        match r.below(10) {
-            0..=4 => Op { a: Acq::Lock, l, h, inner: None },
-            5..=7 => Op { a: Acq::Try, l, h, inner: None },
-            _ => Op { a: Acq::Lock, l, h, inner: Some((Acq::Try, il)) },
+        match r.below(24) {
+            0..=9 => op(Acq::Lock, None),
+            10..=15 => op(Acq::Try, None),
+            16..=19 => op(Acq::Lock, Some((Acq::Try, il))),
+            // the holder formats a mutex (its own or the other one)
+            20 => op(Acq::Lock, Some((Acq::Fmt, il))),
+            // anybody formats the mutex: `h` is the sink kind
+            _ => Op { a: Acq::Fmt, l, h: 1 + r.below(4) as u8, inner: None, gf: 0 },
         }
     }
 }
@@ -614,6 +826,7 @@ fn do_acquire(sh: &Shared, a: Acq, l: usize) -> Option<G<'_>> {
         Acq::Write => Some(G::W(sh.rw[l].write())),
         Acq::TryRead => sh.rw[l].try_read().map(G::R),
         Acq::TryWrite => sh.rw[l].try_write().map(G::W),
+        Acq::Fmt => None, // handled by run_fmt_op
     }
 }
 
@@ -634,6 +847,7 @@ struct WStats {
     try_fail: u64,
     online_unjustified: u64,
     panicked_calls: u64,
+    fmt_ops: u64,
     ops: u64,
 }
 
@@ -700,6 +914,10 @@ impl<'a> Worker<'a> {
         let sh = self.sh;
         let me = self.t;
         self.ws.ops += 1;
+        if a == Acq::Fmt {
+            self.run_fmt_op(op, l);
+            return;
+        }
         // must this call fail because this very thread holds a conflicting guard?
         let must_fail = match held {
             Some((ha, hl)) if hl == l => ha.is_excl() || a == Acq::TryWrite,
@@ -721,7 +939,21 @@ impl<'a> Worker<'a> {
         PROGRESS.fetch_add(1, Relaxed);
         let c = clk();
         let w0 = tl_waits();
+        if !a.is_try() {
+            // blocking calls are never nested: a thread in here holds nothing
+            SLOTS[me].in_block.store(1, Relaxed);
+            TL.with(|t| {
+                t.blk_ev.set(0);
+                t.blk_ops.set(rd64(&OPS_DONE));
+                t.blk.set(a.code() | ((l as u32) << 8));
+            });
+        }
         let g = std::panic::catch_unwind(std::panic::AssertUnwindSafe(|| do_acquire(sh, a, l)));
+        if !a.is_try() {
+            TL.with(|t| t.blk.set(0));
+            SLOTS[me].in_block.store(0, Relaxed);
+        }
+        OPS_DONE.fetch_add(1, Relaxed);
         let w1 = tl_waits();
         let aft = clk();
         if a == Acq::Read {
@@ -868,12 +1100,34 @@ impl<'a> Worker<'a> {
                 self.ws.acq_shared[l] += 1;
             }
         }
+        if op.gf != 0 {
+            // format the guard (Debug, for rwlock guards also Display) into the chosen sink; whatever
+            // the sink does, the guard stays what it was - the monitors below and the other threads'
+            // monitors keep judging that
+            let sink = self.pick_sink(op.gf);
+            let display = op.gf & 8 != 0;
+            let saved = SLOTS[me].op.load(Relaxed);
+            SLOTS[me].op.store(11 | ((l as u32) << 8), Relaxed);
+            let w0 = tl_waits();
+            let _ = run_fmt(sink, &|w| match &g {
+                G::M(gg) => write!(w, "{gg:?}"),
+                G::R(gg) if display => write!(w, "{gg}"),
+                G::R(gg) => write!(w, "{gg:?}"),
+                G::W(gg) if display => write!(w, "{gg}"),
+                G::W(gg) => write!(w, "{gg:?}"),
+            });
+            if tl_waits() != w0 {
+                viol("guard-fmt/reached-futex-wait", &format!("{{\"thread\":{me},\"op\":{}}}", vh::js(&op.mn())));
+            }
+            self.ws.fmt_ops += 1;
+            SLOTS[me].op.store(saved, Relaxed);
+        }
         let h1 = h / 2;
         for _ in 0..h1 {
             hold_unit(&mut self.rng);
         }
         if let Some((ia, il)) = inner {
-            let iop = Op { a: ia, l: il, h: 0, inner: None };
+            let iop = Op { a: ia, l: il, h: if ia == Acq::Fmt { 1 + self.rng.below(4) as u8 } else { 0 }, inner: None, gf: 0 };
             self.run_op(iop, ia, il as usize, 0, None, Some((a, l)));
         }
         for _ in h1..h {
@@ -907,6 +1161,53 @@ impl<'a> Worker<'a> {
         if std::panic::catch_unwind(std::panic::AssertUnwindSafe(move || drop(g))).is_err() {
             self.ws.panicked_calls += 1;
         }
+        OPS_DONE.fetch_add(1, Relaxed);
+    }
+
+    fn pick_sink(&mut self, kind: u8) -> Sink {
+        match kind & 7 {
+            1 => Sink::Str,
+            2 => Sink::Fixed(self.rng.below(110) as usize),
+            3 => Sink::FailErr,
+            _ => Sink::FailPanic,
+        }
+    }
+
+    /// `{:?}` of the mutex itself, by a holder or a bystander. The implementation may take the lock for
+    /// the duration (try_lock), so for everybody else's books this is an outer interval like a try_lock
+    /// that may have succeeded; it must never block, and afterwards the formatter holds nothing (judged
+    /// exactly in the single-threaded phases, where nobody else can hold).
+    fn run_fmt_op(&mut self, op: Op, l: usize) {
+        let sh = self.sh;
+        let me = self.t;
+        ANY_ACT[l].fetch_add(1, Relaxed);
+        ANY_OPN[l].fetch_add(1, Relaxed);
+        WR_ACT[l].fetch_add(1, Relaxed);
+        WR_OPN[l].fetch_add(1, Relaxed);
+        let saved = SLOTS[me].op.load(Relaxed);
+        SLOTS[me].op.store(Acq::Fmt.code() | ((l as u32) << 8), Relaxed);
+        PROGRESS.fetch_add(1, Relaxed);
+        let sink = self.pick_sink(op.h);
+        let c = clk();
+        let w0 = tl_waits();
+        let (_ok, _panicked, _n) = run_fmt(sink, &|w| write!(w, "{:?}", sh.m[l]));
+        let w1 = tl_waits();
+        let aft = clk();
+        OPS_DONE.fetch_add(1, Relaxed);
+        self.ws.fmt_ops += 1;
+        if w1 != w0 {
+            viol(
+                "debug-fmt/reached-futex-wait",
+                &format!("{{\"thread\":{me},\"op\":{},\"futex_waits_during_call\":{}}}", vh::js(&op.mn()), w1 - w0),
+            );
+        }
+        ANY_ACT[l].fetch_sub(1, Relaxed);
+        WR_ACT[l].fetch_sub(1, Relaxed);
+        if self.logging {
+            self.log.push(Rec { t: me as u8, a: Acq::Fmt, l: l as u8, ok: true, c, aft, r: aft });
+        }
+        SLOTS[me].op.store(saved, Relaxed);
+        PROGRESS.fetch_add(1, Relaxed);
     }
 
     fn excl_entry(&mut self, p: &mut Payload, mine: u64, l: usize, op: &Op) -> u64 {
@@ -937,6 +1238,7 @@ impl Acq {
             Acq::Write => "write",
             Acq::TryRead => "try_read",
             Acq::TryWrite => "try_write",
+            Acq::Fmt => "debug-fmt",
         }
     }
 }
@@ -945,7 +1247,7 @@ impl Acq {
 // panic capture (a panic inside repo code is a finding, one inside the harness is a harness bug)
 // ------------------------------------------------------------------------------------------------
 static PANICS: std::sync::Mutex<Vec<(String, u32, String, &'static str)>> = std::sync::Mutex::new(Vec::new());
-const OP_NAMES: [&str; 10] = ["-", "lock", "try_lock", "read", "write", "try_read", "try_write", "unlock", "read_unlock", "write_unlock"];
+const OP_NAMES: [&str; 12] = ["-", "lock", "try_lock", "read", "write", "try_read", "try_write", "unlock", "read_unlock", "write_unlock", "debug-fmt", "guard-fmt"];
 fn install_panic_hook() {
     std::panic::set_hook(Box::new(|info| {
         let (f, l) = info.location().map_or(("?".to_string(), 0), |l| (l.file().to_string(), l.line()));
@@ -956,8 +1258,11 @@ fn install_panic_hook() {
         } else {
             "non-string panic".to_string()
         };
+        if msg == "payload formatting panics on request" && TL.with(|t| t.expect_panic.get()) {
+            return; // the payload's formatting was asked to panic
+        }
         let me = TL.with(|t| t.me.get());
-        let op = if me < MAXT { OP_NAMES[((SLOTS[me].op.load(Relaxed) & 0xff) as usize).min(9)] } else { "-" };
+        let op = if me < MAXT { OP_NAMES[((SLOTS[me].op.load(Relaxed) & 0xff) as usize).min(OP_NAMES.len() - 1)] } else { "-" };
         if let Ok(mut p) = PANICS.lock() {
             p.push((f, l, msg, op));
         }
@@ -1005,8 +1310,33 @@ static WD_CTX: std::sync::Mutex<String> = std::sync::Mutex::new(String::new());
 fn watchdog() {
     let mut prev: Option<(u64, u64, u64)> = None;
     let mut since = std::time::Instant::now();
+    let stall_ms: u64 = std::env::var("HL_STALL_MS").ok().and_then(|s| s.parse().ok()).unwrap_or(30_000);
+    let mut last_ops = (u64::MAX, u64::MAX);
+    let mut ops_since = std::time::Instant::now();
     loop {
         std::thread::sleep(std::time::Duration::from_millis(70));
+        // wall-clock bound (never a verdict): threads are live but no operation of any thread completed
+        // for a long time - whether they are parked or runnable. Ends the process so that a run always ends.
+        let od = (EXEC_ID.load(Relaxed), OPS_DONE.load(Relaxed));
+        let any_live = SLOTS.iter().any(|s| s.live.load(Relaxed) != 0);
+        if od != last_ops || !any_live {
+            last_ops = od;
+            ops_since = std::time::Instant::now();
+        } else if ops_since.elapsed() > std::time::Duration::from_millis(stall_ms) {
+            let mut st = String::new();
+            for (i, s) in SLOTS.iter().enumerate() {
+                if s.live.load(Relaxed) != 0 {
+                    let op = s.op.load(Relaxed);
+                    let _ = write!(st, " thread {i}: {} lock {} {};", OP_NAMES[((op & 0xff) as usize).min(OP_NAMES.len() - 1)], op >> 8,
+                        if s.in_wait.load(Relaxed) != 0 { "parked in futex wait" } else { "runnable" });
+                }
+            }
+            let ctx = WD_CTX.lock().map(|c| c.clone()).unwrap_or_default();
+            vh::inconclusive(&format!("watchdog: no operation completed for {stall_ms} ms with live threads (wall-clock bound, no verdict):{st} run {ctx}"));
+            use std::io::Write;
+            let _ = std::io::stdout().flush();
+            std::process::exit(4);
+        }
         let ex = EXEC_ID.load(Relaxed);
         let pr = PROGRESS.load(Relaxed);
         let mut live = 0u64;
@@ -1019,7 +1349,7 @@ fn watchdog() {
                 if s.in_wait.load(Relaxed) != 0 {
                     mask |= 1 << i;
                     let code = (s.op.load(Relaxed) & 0xff) as usize;
-                    if code == 2 || code == 5 || code == 6 {
+                    if code == 2 || code == 5 || code == 6 || code == 10 || code == 11 {
                         try_parked = Some(OP_NAMES[code]);
                     }
                 } else {
@@ -1059,7 +1389,7 @@ fn watchdog() {
                 in_kernel = false;
             }
             let op = s.op.load(Relaxed);
-            let opn = OP_NAMES[((op & 0xff) as usize).min(9)];
+            let opn = OP_NAMES[((op & 0xff) as usize).min(OP_NAMES.len() - 1)];
             if threads.len() > 1 {
                 threads.push(',');
             }
@@ -1114,6 +1444,7 @@ fn reset_monitor() {
     for s in &SLOTS {
         s.live.store(0, Relaxed);
         s.in_wait.store(0, Relaxed);
+        s.in_block.store(0, Relaxed);
         s.op.store(0, Relaxed);
     }
     ARRIVED.store(0, Relaxed);
@@ -1133,14 +1464,216 @@ fn quiescence(sh: &Shared, n: usize, rw: bool, nlocks: usize, seed: u64, logging
         for l in 0..nlocks {
             let seq: &[Acq] = if rw { &[Acq::TryWrite, Acq::TryRead, Acq::Read, Acq::Write] } else { &[Acq::Try, Acq::Lock] };
             for &a in seq {
-                let op = Op { a, l: l as u8, h: 0, inner: None };
+                let op = Op { a, l: l as u8, h: 0, inner: None, gf: 0 };
                 w.run_op(op, a, l, 0, None, None);
+            }
+            if !rw {
+                // nobody else exists: formatting the mutex must leave it exactly as it was
+                let kinds: &[u8] = if IS_MIRI { &[2] } else { &[1, 2, 3, 4] };
+                for &k in kinds {
+                    let sink = if IS_MIRI && seed & 1 == 0 { Sink::FailErr } else { w.pick_sink(k) };
+                    fmt_leaves_unlocked(&sh.m[l], sink, "quiescence");
+                    w.ws.fmt_ops += 1;
+                }
             }
         }
         (w.log, w.ws)
     }));
     SLOTS[n].live.store(0, Relaxed);
     r.ok().map(|(log, ws)| (log, ws, tl_take()))
+}
+
+/// Single-threaded: the mutex is free before; format it; it must be free afterwards.
+fn fmt_leaves_unlocked(m: &Mutex<Payload>, sink: Sink, phase: &str) -> bool {
+    match m.try_lock() {
+        Some(g) => drop(g),
+        None => return false, // not free to begin with: somebody else's fault, reported elsewhere
+    }
+    let (ok, panicked, n) = run_fmt(sink, &|w| write!(w, "{m:?}"));
+    OPS_DONE.fetch_add(1, Relaxed);
+    match m.try_lock() {
+        Some(g) => {
+            drop(g);
+            true
+        }
+        None => {
+            viol(
+                "debug-fmt/lock-left-held",
+                &format!(
+                    "{{\"what\":\"single thread: try_lock succeeded, the mutex was formatted with {{:?}}, try_lock fails although no guard exists\",\"sink\":{},\"formatting_returned_ok\":{ok},\"formatting_panicked\":{panicked},\"bytes_written\":{n},\"phase\":\"{phase}\"}}",
+                    vh::js(&format!("{sink:?}"))
+                ),
+            );
+            false
+        }
+    }
+}
+
+/// The rest of the public surface, single-threaded with exact post-conditions; every formatting entry
+/// point is driven into a fixed-size sink that runs full at every byte position (a stride under Miri),
+/// into a String, and with a payload whose formatting returns Err / panics, on free and on held locks.
+/// At HEAD the surface is: Mutex {new, lock, try_lock, get_mut, into_inner, Default, Debug},
+/// MutexGuard {Deref, DerefMut, Drop, Debug}, RwLock {new, read, try_read, write, try_write, get_mut,
+/// into_inner}, RwLock{Read,Write}Guard {Deref, (DerefMut), Drop, Debug, Display}.
+fn surface_battery(rw: bool) -> u64 {
+    let mut cases = 0u64;
+    let stride = if IS_MIRI { 9 } else { 1 };
+    let mut sinks: Vec<Sink> = vec![Sink::Str, Sink::FailErr, Sink::FailPanic];
+    let stamp = 0x00AB_0000_0000_0001u64;
+    let mut probe = Payload::new();
+    payload_write(&mut probe, stamp);
+    if !rw {
+        let mut m: Mutex<Payload> = Mutex::default();
+        if m.try_lock().is_none() {
+            viol("default/not-unlocked", "{\"what\":\"Mutex::default() cannot be locked\"}");
+            return cases;
+        }
+        payload_write(m.get_mut(), stamp);
+        let full = format!("{m:?}").len();
+        sinks.extend((0..=full + 1).step_by(stride).map(Sink::Fixed));
+        sinks.push(Sink::Fixed(full));
+        match m.try_lock() {
+            Some(g) => {
+                if payload_read(&g).0 != stamp {
+                    viol("get_mut/value-mismatch", "{\"what\":\"a value written through get_mut is not what the next guard sees\"}");
+                }
+            }
+            None => viol("get_mut/lock-left-held", "{\"what\":\"try_lock fails after get_mut on a fresh mutex\"}"),
+        }
+        for &sink in &sinks {
+            cases += 3;
+            // (1) free mutex
+            if !fmt_leaves_unlocked(&m, sink, "battery, free mutex") {
+                return cases;
+            }
+            // (2) held by the formatting thread itself: neither blocks nor changes anything
+            let g = m.lock();
+            let _ = run_fmt(sink, &|w| write!(w, "{m:?}"));
+            if m.try_lock().is_some() {
+                viol("debug-fmt/lock-released-under-holder", &format!("{{\"sink\":{}}}", vh::js(&format!("{sink:?}"))));
+                return cases;
+            }
+            // (3) the guard's own Debug
+            let _ = run_fmt(sink, &|w| write!(w, "{g:?}"));
+            if m.try_lock().is_some() || payload_read(&g).0 != stamp {
+                viol("guard-fmt/lock-released", &format!("{{\"guard\":\"MutexGuard\",\"sink\":{}}}", vh::js(&format!("{sink:?}"))));
+                return cases;
+            }
+            drop(g);
+            if m.try_lock().is_none() {
+                viol("debug-fmt/lock-left-held", &format!("{{\"what\":\"after the holder formatted mutex and guard and dropped the guard\",\"sink\":{}}}", vh::js(&format!("{sink:?}"))));
+                return cases;
+            }
+        }
+        // (4) held by another thread while this one formats (prints a placeholder, takes nothing)
+        if !IS_MIRI {
+            let g = m.lock();
+            std::thread::scope(|s| {
+                s.spawn(|| {
+                    for &sink in sinks.iter().step_by(7) {
+                        let _ = run_fmt(sink, &|w| write!(w, "{m:?}"));
+                    }
+                });
+            });
+            if payload_read(&g).0 != stamp || m.try_lock().is_some() {
+                viol("debug-fmt/lock-released-under-holder", "{\"what\":\"another thread formatted the held mutex\"}");
+            }
+            drop(g);
+            cases += 1;
+        }
+        if m.try_lock().is_none() {
+            viol("debug-fmt/lock-left-held", "{\"what\":\"end of the formatting battery\"}");
+            return cases;
+        }
+        let v = m.into_inner();
+        if v.stamp != stamp {
+            viol("into_inner/value-mismatch", "{\"what\":\"into_inner returned a different value than the guards saw\"}");
+        }
+        cases += 1;
+    } else {
+        let mut l: RwLock<Payload> = RwLock::new(Payload::new());
+        payload_write(l.get_mut(), stamp);
+        let full = format!("{probe:?}").len();
+        sinks.extend((0..=full + 1).step_by(stride).map(Sink::Fixed));
+        match l.try_write() {
+            Some(g) => {
+                if payload_read(&g).0 != stamp {
+                    viol("get_mut/value-mismatch", "{\"what\":\"a value written through get_mut is not what the next guard sees\"}");
+                }
+            }
+            None => viol("get_mut/lock-left-held", "{\"what\":\"try_write fails after get_mut on a fresh lock\"}"),
+        }
+        for &sink in &sinks {
+            for display in [false, true] {
+                cases += 2;
+                let g = l.read();
+                let _ = run_fmt(sink, &|w| if display { write!(w, "{g}") } else { write!(w, "{g:?}") });
+                // still read-locked by exactly this guard: no writer admitted, another reader is
+                let w_ok = l.try_write().is_some();
+                let r_ok = l.try_read().is_some();
+                if w_ok || !r_ok || payload_read(&g).0 != stamp {
+                    viol("guard-fmt/lock-state-changed", &format!("{{\"guard\":\"RwLockReadGuard\",\"display\":{display},\"sink\":{},\"try_write_admitted\":{w_ok},\"try_read_admitted\":{r_ok}}}", vh::js(&format!("{sink:?}"))));
+                    return cases;
+                }
+                drop(g);
+                let g = l.write();
+                let _ = run_fmt(sink, &|w| if display { write!(w, "{g}") } else { write!(w, "{g:?}") });
+                let w_ok = l.try_write().is_some();
+                let r_ok = l.try_read().is_some();
+                if w_ok || r_ok || payload_read(&g).0 != stamp {
+                    viol("guard-fmt/lock-state-changed", &format!("{{\"guard\":\"RwLockWriteGuard\",\"display\":{display},\"sink\":{},\"try_write_admitted\":{w_ok},\"try_read_admitted\":{r_ok}}}", vh::js(&format!("{sink:?}"))));
+                    return cases;
+                }
+                drop(g);
+                if l.try_write().is_none() {
+                    viol("guard-fmt/lock-left-held", &format!("{{\"display\":{display},\"sink\":{}}}", vh::js(&format!("{sink:?}"))));
+                    return cases;
+                }
+            }
+        }
+        let v = l.into_inner();
+        if v.stamp != stamp {
+            viol("into_inner/value-mismatch", "{\"what\":\"into_inner returned a different value than the guards saw\"}");
+        }
+        cases += 1;
+    }
+    cases
+}
+
+/// After an execution, with every thread joined: the owner's view (get_mut / into_inner) must be the
+/// value the last guard left, and taking it must leave the lock free.
+fn owner_view(sh: Arc<Shared>, rw: bool, nlocks: usize, ctx: &dyn fmt::Display) {
+    let Ok(mut sh) = Arc::try_unwrap(sh) else {
+        return;
+    };
+    for l in 0..nlocks {
+        let last = rd64(&MON_LAST[l]);
+        let mon = rd64(&MON_CNT[l]);
+        let (s, c, ok) = if rw { payload_read(sh.rw[l].get_mut()) } else { payload_read(sh.m[l].get_mut()) };
+        let free = if rw { sh.rw[l].try_write().is_some() } else { sh.m[l].try_lock().is_some() };
+        if s != last || c != mon || !ok {
+            viol("get_mut/value-mismatch", &format!("{{\"lock\":{l},\"stamp\":{s},\"last_writer_stamp\":{last},\"count\":{c},\"exclusive_sections\":{mon},\"run\":{ctx}}}"));
+        }
+        if !free {
+            viol("get_mut/lock-left-held", &format!("{{\"lock\":{l},\"run\":{ctx}}}"));
+        }
+    }
+    let Shared { m, rw: rws } = sh;
+    if rw {
+        for (l, x) in rws.into_iter().enumerate().take(nlocks) {
+            let v = x.into_inner();
+            if v.stamp != rd64(&MON_LAST[l]) || v.count != rd64(&MON_CNT[l]) {
+                viol("into_inner/value-mismatch", &format!("{{\"lock\":{l},\"run\":{ctx}}}"));
+            }
+        }
+    } else {
+        for (l, x) in m.into_iter().enumerate().take(nlocks) {
+            let v = x.into_inner();
+            if v.stamp != rd64(&MON_LAST[l]) || v.count != rd64(&MON_CNT[l]) {
+                viol("into_inner/value-mismatch", &format!("{{\"lock\":{l},\"run\":{ctx}}}"));
+            }
+        }
+    }
 }
 
 fn fnv(h: &mut u64, v: u64) {
@@ -1198,6 +1731,7 @@ fn run_exec(p: &Prog, run_seed: u64, ctx: &dyn std::fmt::Display) -> ExecOut {
                 (w.log, w.ws)
             }));
             SLOTS[t].live.store(0, Relaxed);
+            OPS_DONE.fetch_add(1, Relaxed);
             PROGRESS.fetch_add(1, Relaxed);
             (r.ok(), tl_take())
         }));
@@ -1304,6 +1838,9 @@ fn run_exec(p: &Prog, run_seed: u64, ctx: &dyn std::fmt::Display) -> ExecOut {
             }
         }
     }
+    if !panicked {
+        owner_view(sh, p.rw, p.nlocks, ctx);
+    }
     // ---- schedule signature -------------------------------------------------------------------------
     let mut ent: Vec<&Rec> = out.recs.iter().filter(|r| r.ok).collect();
     ent.sort_by_key(|r| r.aft);
@@ -1358,6 +1895,7 @@ impl Agg {
         a.try_ok += w.try_ok;
         a.try_fail += w.try_fail;
         a.panicked_calls += w.panicked_calls;
+        a.fmt_ops += w.fmt_ops;
         a.online_unjustified += w.online_unjustified;
         a.ops += w.ops;
     }
@@ -1382,6 +1920,7 @@ impl Agg {
             ("try_success", w.try_ok),
             ("try_failure", w.try_fail),
             ("calls_that_panicked_in_repo_code", w.panicked_calls),
+            ("formatting_operations", w.fmt_ops),
             ("rw_refusals_without_overlapping_interval_not_judged", self.unexplained_refusals + if rw { w.online_unjustified } else { 0 }),
             ("ops", w.ops),
         ];
@@ -1459,6 +1998,29 @@ impl std::fmt::Display for Ctx<'_> {
     }
 }
 
+fn run_battery(rw: bool, kname: &str, env: &str) {
+    reset_monitor();
+    tl_reset(MAXW, 0xBA77);
+    SLOTS[MAXW].tid.store(gettid(), Relaxed);
+    SLOTS[MAXW].op.store(10, Relaxed);
+    SLOTS[MAXW].live.store(1, Relaxed);
+    if let Ok(mut c) = WD_CTX.lock() {
+        *c = format!("{{\"lock\":\"{kname}\",\"env\":\"{env}\",\"phase\":\"single-threaded surface battery\"}}");
+    }
+    let r = std::panic::catch_unwind(|| surface_battery(rw));
+    SLOTS[MAXW].live.store(0, Relaxed);
+    SLOTS[MAXW].op.store(0, Relaxed);
+    let ctx = format!("{{\"phase\":\"surface battery\",\"env\":\"{env}\"}}");
+    report_panics(&ctx);
+    match r {
+        Ok(n) => {
+            vh::count("surface_battery_cases", n);
+            vh::distinct(&format!("{kname}/{env}/surface-battery"));
+        }
+        Err(_) => vh::inconclusive("surface battery did not complete (panic)"),
+    }
+}
+
 fn env_name() -> String {
     if IS_MIRI {
         return "miri".into();
@@ -1491,6 +2053,9 @@ fn prog_mode(a: &vh::Args) {
     rv::set_point_callback(Some(point_cb));
     let env = env_name();
     let kname = if rw { "rwlock" } else { "mutex" };
+    if !IS_MIRI || first == 0 {
+        run_battery(rw, kname, &env);
+    }
     let mut agg = Agg::default();
     let mut sigs: HashSet<u64> = HashSet::new();
     let mut execs = 0u64;
@@ -1579,6 +2144,7 @@ fn stress_mode(a: &vh::Args) {
     rv::set_point_callback(Some(point_cb));
     let env = env_name();
     let kname = if rw { "rwlock" } else { "mutex" };
+    run_battery(rw, kname, &env);
     let mut dr = Rng::new(a.seed ^ 0x57E5);
     let delays = arm_delays(&mut dr, rw);
     reset_monitor();
@@ -1627,6 +2193,7 @@ fn stress_mode(a: &vh::Args) {
                 w.ws
             }));
             SLOTS[t].live.store(0, Relaxed);
+            OPS_DONE.fetch_add(1, Relaxed);
             PROGRESS.fetch_add(1, Relaxed);
             (r.ok(), tl_take())
         }));
@@ -1683,6 +2250,9 @@ fn stress_mode(a: &vh::Args) {
             }
         }
     }
+    if !panicked {
+        owner_view(sh, rw, nlocks, &ctx);
+    }
     vh::eval(1);
     vh::count("stress_runs", 1);
     agg.emit(rw, 0, 0);
@@ -1701,6 +2271,9 @@ fn main() {
     install_panic_hook();
     #[cfg(not(miri))]
     {
+        if std::env::var("HL_NO_LIVELOCK").is_ok() {
+            LIVELOCK_OFF.store(1, Relaxed);
+        }
         std::thread::spawn(watchdog);
     }
     match a.mode.as_str() {
